@@ -1,6 +1,7 @@
 """C17 — SimpleNFS implements its specification, atomically and durably."""
 import os
 import seqlib
+import crashlib
 import vlib
 from vlib import Break
 
@@ -39,6 +40,8 @@ def run(ctx):
                                            "trace_prefix": seqlib.context_before(lines, m[-1], contains=True)})
                 except Break as b:
                     ctx.breaks.append(b)
+    if ok_go:
+        crashlib.run_small(ctx, ok_drv, "crashsimple", "C17", ["-workloads", "12", "-ops", "60", "-images", "1000"] if ctx.tier == "thorough" else ["-workloads", "3", "-ops", "40", "-images", "200"])
     vlib.finish(
         ctx, "proof",
         "theorems: WRITE accepted exactly when count = len(data), the end is within 4096 bytes and there is no hole; accepted WRITE, READ and SETATTR refine the "
@@ -47,4 +50,5 @@ def run(ctx):
         "request sequences over inode numbers 0..40 and huge, handles shorter than 8 bytes, offsets/sizes/counts at 0,1,2,4094..4097,8192,2^32,2^63,2^64-k, count≠len(data), "
         "appends at the current size, lookups, commits, unsupported procedures; every reply compared exactly",
         ["64-bit offsets are read as natural numbers (exact because of the explicit SumOverflows test, which the correspondence exercises at 2^64-k)"],
-        pending=["simple_one_txn / crash atomicity and durability on recorded disk traces (needs the WAL model M9)", "linearizability of concurrent requests on one file (lock/commit trace)"])
+        pending=["linearizability of concurrent requests on one file (lock/commit trace)"],
+        partial=["crash atomicity/durability: theorems of C01 on the WAL model + recorded-trace validation + prefix-state oracle on sampled crash images of WRITE/SETATTR workloads (recovered by simple.Recover)"])
